@@ -144,8 +144,10 @@ def rand_expr(rng, depth, need_html=True):
     a = rand_expr(rng, depth - 1, need_html and side)
     b = rand_expr(rng, depth - 1, need_html and not side)
     if need_html and rng.random() < 0.15:
-        num = {"leaf": "num", "v": rng.choice([0, 5, -3, 1.5, 1e300, True])} if rng.random() < 0.5 else \
-            {"leaf": "strobj", "v": gen.text_of(rng, rng.choice(["meta", "markup", "word"]))}
+        r_ = rng.random()
+        num = {"leaf": "num", "v": rng.choice([0, 5, -3, 1.5, 1e300, True])} if r_ < 0.4 else \
+            {"leaf": "strobj", "v": gen.text_of(rng, rng.choice(["meta", "markup", "word"]))} if r_ < 0.7 else \
+            {"leaf": "tagobj" if (r_ < 0.9 or not side) else "taglistobj", "v": gen.text_of(rng, rng.choice(["meta", "markup", "word"]))}
         if side:
             b = num
         else:
@@ -181,6 +183,10 @@ def eval_expr(e, log, values=None):
             return h, ("html", [("html", e["v"])])
         if e["leaf"] == "strobj":
             return StrObj(e["v"]), ("num", e["v"])  # any non-str object contributes str(object), escaped once
+        if e["leaf"] in ("tagobj", "taglistobj"):
+            # an element (or, as the right operand, a list) is such an object too: its str() is text to the concatenation
+            o = ht.span(e["v"], title=e["v"]) if e["leaf"] == "tagobj" else ht.TagList(ht.span(e["v"]), e["v"])
+            return o, ("num", str(o))
         return e["v"], ("num", e["v"])
     lv, lm = eval_expr(e["l"], log, values)
     rv, rm = eval_expr(e["r"], log, values)
@@ -300,12 +306,21 @@ def check_saved(ctx, r, scratch):
     wit = {"recipe": r, "view": "save_html"}
     obj = gen.build(r)
     gen.fill_late()
+    pre_existing = ctx.counters["oracle.verbatim_saved"] % 3
     f = os.path.join(scratch, "c04-%d.html" % ctx.counters["oracle.verbatim_saved"])
     ctx.count("oracle.verbatim_saved")
     try:
+        if pre_existing:
+            # the destination already exists (an earlier, much longer - or empty - version of the page): what is there afterwards
+            # is the new document and nothing else
+            with open(f, "w", encoding="utf-8") as fh:
+                fh.write("<!-- OLD PAGE -->\n" + "<p>old content that is longer than the new page</p>\n" * (4000 if pre_existing == 1 else 0))
         obj.save_html(f)
         with open(f, encoding="utf-8", newline="") as fh:
             out = fh.read()
+        if pre_existing and ("OLD PAGE" in out or "old content" in out or not out.rstrip().endswith("</html>")):
+            ctx.violation("trusted-payload-not-verbatim", "save_html over an existing file left some of the old file's content in place", dict(wit, tail=out[-200:]))
+            return False
     except Exception as e:
         ctx.violation("render-raises", "save_html raised %r" % e, wit)
         return False
